@@ -546,6 +546,7 @@ LITERALS = collections.OrderedDict([
     ("double dash inside double quotes", ['"a -- b"', '"--"', '"x--y"']),
     ("line break inside", ["'line one\nline two'", "'a\nb'", "'x,\ny'"]),
     ("semicolon followed by words", ["'see docs; not used'", "'deprecated;do not use'", "'a; b c'"]),
+    ("semicolon followed by a statement word", ["'run it; drop table tmp after'", "'n/a; create later'", "'x; ALTER it'"]),
     ("square brackets", ["'[]'", "'[none]'", "'see note [1]'"]),
     ("curly braces", ["'{}'", "'{\"tags\": []}'", "'a {b} c'"]),
     ("angle brackets and plus", ["'a<b'", "'x > y'", "'1+1'"]),
